@@ -771,6 +771,12 @@ def build_binned(lay, var, ev_dtype, geom, seed, opts=None, salt=0):
     ovals = _distinct(rng, N, lo * uev[1], hi * uev[1], ev_dtype, scaled(uev[1], near))
     ecoords = {o: sc.array(dims=['event'], values=ovals, unit=uev[0], dtype=ev_dtype),
                'extra': sc.array(dims=['event'], values=np.arange(1, N + 1), unit='s', dtype='int64')}
+    # an event coordinate the caller already has that is named like a node of the conversion graph but is neither the
+    # origin, the target nor an input of anything on the way (a leaf: nothing is computed from energy / dspacing):
+    # an "unrelated coordinate" of this conversion, e.g. the result of an earlier conversion of the same events
+    leaf = next((n for n in ('energy', 'dspacing') if n not in (o, t)), None)
+    if leaf is not None and int(rng.integers(0, 3)) != 0:
+        ecoords[leaf] = sc.array(dims=['event'], values=rng.uniform(1.0, 2.0, size=N), unit='meV' if leaf == 'energy' else 'angstrom')
     pulse_ev = None
     if t == 'time_at_sample' and op['pulse'] == 'event':
         pulse_ev = rng.uniform(0.0, 100.0, size=N) * uev[1]
@@ -980,7 +986,7 @@ def run_event_case(case, seed):
     N = info['N']
     ev = {'ev': 'conv', 'tid': case['tid'], 'kind': kind, 'R': R, 'C': C, 'N': N, 'bg': list(lay['bg']),
           'en': list(lay['en']), 'out': 'ok', 'hist': hist, 'bins': [], 'edges': [],
-          'same': {'masks': True, 'evmasks': True, 'coords': True, 'evcoord': True, 'input': True, 'formula': True}}
+          'same': {'masks': True, 'evmasks': True, 'coords': True, 'evcoord': True, 'input': True, 'formula': True, 'evother': True}}
     flags = [k for k in ('edges2d', 'transpose', 'geom_t', 'view', 'squeeze') if opts[k]]
     if opts['container'] == 'ds':
         flags.append('Dataset')
@@ -1134,6 +1140,21 @@ def run_event_case(case, seed):
                 if not np.array_equal(a, bb):
                     evmask_ok = False
     ev['same']['evcoord'] = bool(evcoord_ok)
+    # event coordinates of the input that this conversion has no business with (see build_binned: 'energy' / 'dspacing'
+    # left by an earlier conversion) are still there, bin by bin, with the same values
+    for lname in ('energy', 'dspacing'):
+        if lname in (o, t) or lname not in ibuf.coords:
+            continue
+        if lname not in ocols:
+            ev['same']['evother'] = False
+            meta['note'] = f'event coordinate {lname!r} of the input is missing from the result'
+            continue
+        lin = np.asarray(ibuf.coords[lname].values)
+        for b in range(B):
+            if not np.array_equal(ocols[lname][0][int(ob[b]):int(oe[b])], lin[int(ib[b]):int(ie[b])]):
+                ev['same']['evother'] = False
+                meta['note'] = f'event coordinate {lname!r} of the input changed'
+                break
     ev['same']['evmasks'] = bool(evmask_ok)
     # --- bin-edge coordinate: same function
     if kind == 'pt':
